@@ -387,9 +387,10 @@ def get_odesys(
         names=names,
         latex_names=latex_names,
         param_names=param_names_for_odesys,
-        linear_invariants=None if len(compo_vecs) == 0 else compo_vecs,
+        # with a feed (cstr) the amounts of the elements are not conserved:
+        linear_invariants=None if len(compo_vecs) == 0 or cstr_fr_fc else compo_vecs,
         linear_invariant_names=None
-        if len(compo_names) == 0
+        if len(compo_names) == 0 or cstr_fr_fc
         else list(map(str, compo_names)),
         **kwargs
     )
@@ -402,7 +403,7 @@ def get_odesys(
     )
     rate_exprs_cb = odesys._callback_factory(symbolic_ratexs)
 
-    if rsys.check_balance(strict=True):
+    if rsys.check_balance(strict=True) and not cstr_fr_fc:
         # Composition available, we can provide callback for calculating
         # maximum allowed Euler forward step at start of integration.
         def max_euler_step_cb(x, y, p=()):
